@@ -29,7 +29,7 @@
      targets      <<"TName", x>> <<"TTuple", <<targets>>>> <<"TSub", base-expr, idx>> <<"TAttr", x, field>>
                   <<"TStar", <<targets before>>, star target, <<targets after>>>>
    Values are tagged:  <<"int", n>> <<"bool", 0|1>> <<"float", q>> (q quarter units)
-     <<"tuple", <<v..>>>> <<"struct", name, <<fieldnames>>, <<v..>>>> <<"ref", a>> (array in the store)
+     <<"tuple", <<v..>>>> <<"sref", a>> (struct object in the store: <<"struct", name, <<fieldnames>>, <<v..>>>>) <<"ref", a>> (array in the store)
      <<"fn", fname>> <<"none">> <<"str", s>>
    Serves C03, C05, C07, C13, C15, C16, C19, C21, C27, C32. *)
 EXTENDS Integers, Sequences, FiniteSets, TLC, Json, IOUtils
@@ -205,7 +205,9 @@ Eval ==
                 IF e[2] = <<>> THEN Go(<<"V", <<"tuple", <<>>>>>>, Push(<<"mk", <<e[1]>>>>))
                 ELSE Go(<<"E", e[2][1]>>, Push(<<"seq", <<e[1]>>, <<>>, Tail1(e[2])>>))
          [] e[1] = "Struct"  ->
-                IF e[4] = <<>> THEN Ret(<<"struct", e[2], e[3], <<>>>>)
+                IF e[4] = <<>> THEN /\ store' = Append(store, <<"struct", e[2], e[3], <<>>>>)
+                                    /\ c' = <<"V", <<"sref", Len(store) + 1>>>>
+                                    /\ UNCHANGED <<r, k, env, out, st, last>>
                 ELSE Go(<<"E", e[4][1]>>, Push(<<"seq", <<"Struct", e[2], e[3]>>, <<>>, Tail1(e[4])>>))
          [] e[1] = "Copy"    -> Go(<<"E", e[2]>>, Push(<<"copy">>))
          [] e[1] = "Sub"     -> Go(<<"E", e[2]>>, Push(<<"sub", e[3]>>))
@@ -234,7 +236,12 @@ Finish(kind, vals) ==       \* all components of a sequence-like expression are 
                            /\ c' = <<"V", <<"ref", Len(store) + 1>>>>
                            /\ k' = Pop
                            /\ UNCHANGED <<r, env, out, st, last>>
-      [] kind[1] = "Struct"  -> Go(<<"V", <<"struct", kind[2], kind[3], vals>>>>, Pop)
+      \* struct objects have identity (Python's object semantics): a callee that replaces a field of a borrowed
+      \* struct is seen by the caller
+      [] kind[1] = "Struct"  -> /\ store' = Append(store, <<"struct", kind[2], kind[3], vals>>)
+                             /\ c' = <<"V", <<"sref", Len(store) + 1>>>>
+                             /\ k' = Pop
+                             /\ UNCHANGED <<r, env, out, st, last>>
       [] kind[1] = "Builtin" -> LET res == Builtin(kind[2], vals) IN
                                 IF res = Undefined THEN Stuck(<<"undefined builtin", kind[2], vals>>)
                                 ELSE Go(<<"V", res>>, Pop)
@@ -305,8 +312,8 @@ Apply ==
                            ELSE Stuck(<<"tuple index", v>>))
                 ELSE Stuck(<<"subscript of", b[1]>>)
          [] f[1] = "attr"   ->
-                IF v[1] = "struct" /\ \E i \in 1..Len(v[3]) : v[3][i] = f[2]
-                THEN Go(<<"V", v[4][CHOOSE i \in 1..Len(v[3]) : v[3][i] = f[2]]>>, Pop)
+                IF v[1] = "sref" /\ \E i \in 1..Len(store[v[2]][3]) : store[v[2]][3][i] = f[2]
+                THEN LET sv == store[v[2]] IN Go(<<"V", sv[4][CHOOSE i \in 1..Len(sv[3]) : sv[3][i] = f[2]]>>, Pop)
                 ELSE Stuck(<<"attribute", f[2]>>)
          \* ---- statement frames that wait for a value
          [] f[1] = "exprstmt" -> Go(<<"U", <<"next">>>>, Pop)
@@ -335,11 +342,13 @@ Apply ==
                       ELSE Stuck(<<"starred unpack shape", t>>))
                 ELSE IF t[1] = "TSub" THEN Go(<<"E", t[2]>>, Append(Pop, <<"asub1", t[3], v>>))
                 ELSE IF t[1] = "TAttr"
-                THEN (IF t[2] \in DOMAIN env /\ env[t[2]][1] = "struct" /\ \E i \in 1..Len(env[t[2]][3]) : env[t[2]][3][i] = t[3]
-                      THEN LET s == env[t[2]]
+                THEN (IF t[2] \in DOMAIN env /\ env[t[2]][1] = "sref"
+                         /\ \E i \in 1..Len(store[env[t[2]][2]][3]) : store[env[t[2]][2]][3][i] = t[3]
+                      THEN LET a == env[t[2]][2]
+                               s == store[a]
                                j == CHOOSE i \in 1..Len(s[3]) : s[3][i] = t[3] IN
-                           /\ env' = Bind(env, t[2], <<"struct", s[2], s[3], [s[4] EXCEPT ![j] = v]>>)
-                           /\ c' = <<"U", <<"next">>>> /\ k' = Pop /\ UNCHANGED <<r, store, out, st, last>>
+                           /\ store' = [store EXCEPT ![a] = <<"struct", s[2], s[3], [s[4] EXCEPT ![j] = v]>>]
+                           /\ c' = <<"U", <<"next">>>> /\ k' = Pop /\ UNCHANGED <<r, env, out, st, last>>
                       ELSE Stuck(<<"attribute target", t>>))
                 ELSE IF t[1] = "TMustReject" THEN Stuck(<<"MustReject", t[2]>>)
                 ELSE Stuck(<<"target", t[1]>>)
